@@ -208,8 +208,10 @@ func compareVersionPrerelease(a, b string) int {
 		return -1
 	}
 
-	x := a
-	y := b
+	// NOTE Version.prerelease does not have the leading hyphen, but
+	// comparePrerelease of semver expects it.
+	x := "-" + a
+	y := "-" + b
 
 	for x != "" && y != "" {
 		x, y = x[1:], y[1:] // skip - or .
@@ -231,14 +233,10 @@ func compareVersionPrerelease(a, b string) int {
 			}
 
 			return 1
-		case ix:
-			if len(dx) < len(dy) {
-				return -1
-			}
-
-			if len(dx) > len(dy) {
-				return 1
-			}
+		case ix && len(dx) < len(dy):
+			return -1
+		case ix && len(dx) > len(dy):
+			return 1
 		case dx < dy:
 			return -1
 		default:
